@@ -755,7 +755,9 @@ theorem step_own (a : Agent) (e : Ev) :
     simp only [step]
     split
     · exact NoNew.refl _ _
-    · exact (addRemoteCandidate_nn a c).trans (runForced_nn _ now)
+    · split
+      · exact NoNew.refl _ _
+      · exact (addRemoteCandidate_nn a c).trans (runForced_nn _ now)
   | start now ctl ru rp =>
     refine Or.inl ?_
     rw [step_start_eq]
